@@ -214,6 +214,48 @@ def h_history(ctx, transport, ops, bs):
     ctx.check("no command was rejected by the target", all(n != "ILLEGAL" for n, _ in tgt.commands))
 
 
+def h_batch(ctx, transport, forms, bs):
+    """commands prepared first and issued afterwards (a queued batch of WRITEs, then a prepared READ): every command
+    still carries its own address, length and data when it reaches the target"""
+    import importlib
+    s, tgt = _setup(ctx, transport, bs)
+    cmds, log = [], []
+    for k, form in enumerate(forms[:-1]):
+        lb, tb = W[form]
+        lba = ctx.int("op%d_lba" % k, lb)
+        tl = ctx.concrete(ctx.int("op%d_tl" % k, 2, hi=2))
+        data = ctx.bytes("op%d_data" % k, bs * tl)
+        cls = getattr(importlib.import_module("pyscsi.pyscsi.scsi_cdb_write%s" % form), "Write%s" % form)
+        cmds.append(cls(getattr(s.device.opcodes, "WRITE_%s" % form), bs, lba, tl, data))
+        log.append((lba, tl, [data[i * bs:(i + 1) * bs] for i in range(tl)]))
+    form = forms[-1]
+    lb, tb = W[form]
+    rlba = ctx.int("final_lba", lb)
+    rtl = ctx.concrete(ctx.int("final_tl", 2, hi=2))
+    rcls = getattr(importlib.import_module("pyscsi.pyscsi.scsi_cdb_read%s" % form), "Read%s" % form)
+    rd = rcls(getattr(s.device.opcodes, "READ_%s" % form), bs, rlba, rtl)
+    for c in cmds:
+        s.execute(c)
+    s.execute(rd)
+    datain = rd.datain
+    ctx.check("returned buffer is tl blocks long", len(datain) == ctx.oracle(bs * rtl))
+    for i in range(rtl):
+        a = rlba + i
+        want = None
+        for wl, n, blocks in reversed(log):
+            for j in range(n):
+                if a == wl + j:
+                    want = blocks[j]
+                    break
+            if want is not None:
+                break
+        if want is None:
+            want = tgt.disk.read(a)
+            ctx.check("block %d was never written: initial content" % i, tgt.disk._lookup(tgt.disk.writes, a) is None)
+        _expect_block(ctx, "prepared read, block %d: data last written to that LBA" % i, datain[i * bs:(i + 1) * bs], want)
+    ctx.check("no command was rejected by the target", all(n != "ILLEGAL" for n, _ in tgt.commands))
+
+
 def obligations(tier):
     from symx.harness import Ob
     q = tier == "quick"
@@ -231,6 +273,8 @@ def obligations(tier):
         if not q:
             hist += [[("W", "12"), ("WS", "10"), ("R", "12")], [("WS", "10"), ("W", "16"), ("R", "10")],
                      [("W", "16"), ("W", "16"), ("W", "12"), ("R", "16")]]
+        for forms in ([["16", "16", "16"], ["10", "10", "10"]] + ([] if q else [["12", "16", "12"], ["16", "10", "16"]])):
+            obs.append(Ob("batch/%s/%s" % ("-".join(forms), tr), MOD, "h_batch", {"transport": tr, "forms": forms, "bs": 2}, split=True))
         for h in hist:
             obs.append(Ob("history/%s/%s" % ("-".join(k + f for k, f in h), tr), MOD, "h_history",
                           {"transport": tr, "ops": h, "bs": 2}, split=True))
@@ -244,7 +288,8 @@ INFO = {
                    "that decodes the CDB with the standards-only decoder and stores blocks in an arbitrary-function disk; LBAs "
                    "at full width (also above 2^32 for the 16-byte forms), flags, payload and disk pre-state are solver "
                    "variables; z3 decides the inductive step (post-state == the caller's abstract operation, via a symbolic "
-                   "probe address) and explicit W;R / W;W;R / WS;R histories over every aliasing of the LBAs.",
+                   "probe address) and explicit W;R / W;W;R / WS;R histories over every aliasing of the LBAs; also batches of "
+                   "command objects prepared first and issued afterwards through SCSI.execute.",
     "functions": ["SCSI.read10/12/16, write10/12/16, writesame10/16, synchronizecache10/16, readcapacity10/16, inquiry",
                   "Read*/Write*/WriteSame*/SynchronizeCache*/ReadCapacity*/Inquiry constructors", "SCSIDevice.execute",
                   "ISCSIDevice.execute", "ReadCapacity10/16.unmarshall_datain", "Inquiry.unmarshall_datain"],
